@@ -204,7 +204,7 @@ def sender_body(P, R):
     if ins:
         a = ins[0].ev['args']
         ok = rules.fmt_literal(ins[0].ev, 2) == ' %d %s %u' and len(a) == 6 and is_field(a[3], 'client', core.REQ_REC) and \
-            is_field(a[4], 'text_addr', core.REQ_REC) and is_field(a[5], 'remote_port', core.REQ_REC) and \
+            is_field(a[4], core.addr_text_field(P), core.REQ_REC) and is_field(a[5], 'remote_port', core.REQ_REC) and \
             all(is_var(root_var(x), snd.params[0]) for x in a[3:])
     R.ob('C09.FMT.2', ok, ins[0] if ins else snd, 'the sender inserts " <id> <address text> <port>" of the request it was given', key='insertion')
     if ins:
@@ -246,7 +246,7 @@ def address_producers(P, R):
     for f in P.fns.values():
         for s in f.sites():
             for lv in P.written_lvalues(s):
-                if on_path(lv, 'text_addr', core.REQ_REC):
+                if on_path(lv, core.addr_text_field(P), core.REQ_REC):
                     n += 1
                     ev = s.ev
                     ok = False
@@ -261,7 +261,7 @@ def address_producers(P, R):
                                 return t.ev['k'] == 'call' and t.ev.get('callee') in ('memcpy', 'memmove') and len(t.ev['args']) == 3 and is_var(t.ev['args'][1], src['name']) \
                                     and on_path(t.ev['args'][0], 'remote_addr', core.REQ_REC)
                             own = f.path_avoiding(s, stores) is None
-                        size_ok = const_of(a[1]) == (P.record_field(core.REQ_REC, 'text_addr') or {}).get('array')
+                        size_ok = const_of(a[1]) == (P.record_field(core.REQ_REC, core.addr_text_field(P)) or {}).get('array')
                         ok = own and size_ok
                         what = 'irc_ntop(%s) of %s' % (sx(a[0]), sx(src))
                     R.ob('C09.WMC.2', ok, s, 'the address text is produced by the address printer from the request\'s own remote address (%s)' % what, key='text_addr-writer')
